@@ -18,6 +18,8 @@ import (
 //	                          starts a deferred function that calls recover()
 //	recoverGuards - every declared function that defers a recover() at the top level of its body: {pkg, func, first}
 //	                first = the deferred recover is the FIRST statement of the body (nothing can panic before the guard stands)
+//	                setsResult = the deferred function assigns to a NAMED RESULT of the enclosing function (a guard that sets a
+//	                local lets the function return its zero results: a swallowed panic then looks like a success to the caller)
 //
 // A panic in a goroutine without a guard ends the process whatever its caller does, so the property theorems of C08 require
 // every unguarded site to be a reviewed one, and the guards the review relies on to be in place and first.
@@ -30,9 +32,10 @@ type goSite struct {
 }
 
 type recoverGuard struct {
-	Pkg   string `json:"pkg"`
-	Func  string `json:"func"`
-	First bool   `json:"first"`
+	Pkg        string `json:"pkg"`
+	Func       string `json:"func"`
+	First      bool   `json:"first"`
+	SetsResult bool   `json:"setsResult"`
 }
 
 // deferredRecover: is `s` a `defer func() { ... recover() ... }()`?
@@ -68,6 +71,44 @@ func bodyGuard(b *ast.BlockStmt) (bool, bool) {
 		}
 	}
 	return false, false
+}
+
+// guardSetsResult: does the first deferred recover of fd assign to one of fd's named results?
+func guardSetsResult(p *packages.Package, fd *ast.FuncDecl) bool {
+	results := map[types.Object]bool{}
+	if fd.Type.Results != nil {
+		for _, f := range fd.Type.Results.List {
+			for _, n := range f.Names {
+				if obj := p.TypesInfo.Defs[n]; obj != nil {
+					results[obj] = true
+				}
+			}
+		}
+	}
+	if len(results) == 0 || fd.Body == nil {
+		return false
+	}
+	for _, s := range fd.Body.List {
+		if !deferredRecover(s) {
+			continue
+		}
+		lit := s.(*ast.DeferStmt).Call.Fun.(*ast.FuncLit)
+		found := false
+		ast.Inspect(lit.Body, func(n ast.Node) bool {
+			if as, ok := n.(*ast.AssignStmt); ok {
+				for _, lhs := range as.Lhs {
+					if id, ok := lhs.(*ast.Ident); ok {
+						if obj := p.TypesInfo.Uses[id]; obj != nil && results[obj] {
+							found = true
+						}
+					}
+				}
+			}
+			return true
+		})
+		return found
+	}
+	return false
 }
 
 func declName(fd *ast.FuncDecl) string {
@@ -115,7 +156,7 @@ func extractGuards(pkgs []*packages.Package, genDir string) {
 				}
 				name := declName(fd)
 				if has, first := bodyGuard(fd.Body); has {
-					guards = append(guards, recoverGuard{Pkg: short, Func: name, First: first})
+					guards = append(guards, recoverGuard{Pkg: short, Func: name, First: first, SetsResult: guardSetsResult(p, fd)})
 				}
 				n := 0
 				ast.Inspect(fd.Body, func(nd ast.Node) bool {
@@ -169,7 +210,7 @@ func extractGuards(pkgs []*packages.Package, genDir string) {
 	b.WriteString("-- GENERATED by /verif/go/extract (guards.go): goroutines started and panics contained in the block-execution packages.\n")
 	b.WriteString("-- Do not edit.  Regenerated on every run of ./check.\n")
 	b.WriteString("namespace Bxh.Gen\n\nstructure GoSite where\n  pkg : String\n  func : String\n  n : Nat\n  target : String\n  guarded : Bool\nderiving Repr, DecidableEq\n\n")
-	b.WriteString("structure RecoverGuard where\n  pkg : String\n  func : String\n  first : Bool\nderiving Repr, DecidableEq\n\n")
+	b.WriteString("structure RecoverGuard where\n  pkg : String\n  func : String\n  first : Bool\n  setsResult : Bool\nderiving Repr, DecidableEq\n\n")
 	b.WriteString("def goSites : List GoSite := [\n")
 	for i, s := range sites {
 		sep := ","
@@ -185,7 +226,7 @@ func extractGuards(pkgs []*packages.Package, genDir string) {
 		if i == len(guards)-1 {
 			sep = ""
 		}
-		b.WriteString(fmt.Sprintf("  { pkg := %s, func := %s, first := %s }%s\n", leanStr(g.Pkg), leanStr(g.Func), leanBool(g.First), sep))
+		b.WriteString(fmt.Sprintf("  { pkg := %s, func := %s, first := %s, setsResult := %s }%s\n", leanStr(g.Pkg), leanStr(g.Func), leanBool(g.First), leanBool(g.SetsResult), sep))
 	}
 	b.WriteString("]\n\nend Bxh.Gen\n")
 	writeIfChanged(genDir+"/Guards.lean", b.String())
